@@ -115,7 +115,7 @@ def check_call_prior_many_alleles(tier, seed):
                 pool = rng.integers(0, n, size=k)
                 g = tuple(sorted(int(x) for x in rng.choice(pool, size=ploidy)))
                 ga = np.array(g, dtype=np.int64)
-                for F in (0.0, 0.1):
+                for F in (0.0, 0.1, 5e-4, 9e-4):
                     exp = log_prior(g, n, F)
                     got = float(CP.log_genotype_prior(ga, n, F, None))
                     ev += 1
@@ -141,7 +141,7 @@ def check_call_prior_many_alleles(tier, seed):
                     gotc = float(CP.log_genotype_allele_prior(ga, kk, n, F, None))
                     if not (abs(gotc - expc) <= 1e-9 * max(1.0, abs(expc))):
                         bad("rt/allele_conditional_prior_many_alleles", dict(inp, position=kk), gotc, expc, "log_genotype_allele_prior vs the Polya-urn conditional")
-    return {"bound": "n_alleles %s x ploidy %s x seeded genotypes x F {0,.1}" % (sizes, ploidies), "evaluations": ev, "distinct_nontrivial": int(nontriv), "failures": fails, "samples": [], "exhaustive": False}
+    return {"bound": "n_alleles %s x ploidy %s x seeded genotypes x F {0, .1, 5e-4, 9e-4}" % (sizes, ploidies), "evaluations": ev, "distinct_nontrivial": int(nontriv), "failures": fails, "samples": [], "exhaustive": False}
 
 
 def partitions(n, maxpart=None):
